@@ -41,6 +41,7 @@ type Group struct {
 	InputLenP   string                         `json:"input_len_param"`
 	Bounds      string                         `json:"bounds"`
 	NoCosim     bool                           `json:"no_cosim"`
+	LossyFmt    bool                           `json:"lossy_fmt"`
 }
 
 type Spec struct {
@@ -288,6 +289,7 @@ func main() {
 			}
 			cfg.Deadline = time.Now().Add(time.Duration(sec) * time.Second)
 			cfg.AllocFactor, cfg.AllocBase = g.AllocFactor, g.AllocBase
+			cfg.LossyFmt = g.LossyFmt
 			if g.InputLenP != "" {
 				cfg.InputLen = in.params[g.InputLenP]
 			}
